@@ -131,6 +131,71 @@ def storage_scenario(e3, kind, name, known):
                 known=known_here, replayer=_e3.native_replayer("C10", "c10", {1: roles[1], 2: roles[2]}, inputs))
 
 
+def doc_table():
+    """what the documentation of AggregationMode promises, read from the doc comments in builder.rs"""
+    import re, os
+    txt = open(os.path.join(REPO, "metrics-exporter-dogstatsd/src/builder.rs")).read()
+    m = re.search(r"pub enum AggregationMode \{(.*?)\n\}", txt, re.S)
+    table = {}
+    cur = []
+    for line in m.group(1).split("\n"):
+        t = line.strip()
+        if t.startswith("///"):
+            cur.append(t[3:].strip())
+        elif re.match(r"^\w+,?$", t):
+            doc = " ".join(cur).lower()
+            table[t.rstrip(",")] = ("not sent with a timestamp" not in doc) and ("sent with a timestamp" in doc)
+            cur = []
+    return table
+
+
+def config_tables(e3):
+    """decision tables on real code: timestamp per aggregation mode (against the documented table), framing per transport"""
+    P = _e3.program(["metrics-exporter-dogstatsd"])
+    from mirsmt.sym import Enum, Agg, Opaque
+    m = {r"SystemTime::now$": lambda *a: Opaque("now"), r"SystemTime::duration_since$": lambda *a: Enum(0, {0: Agg({0: Opaque("dur")})}, "Result"),
+         r"^Result::ok$": lambda eng, ctx, f, path, args, dty: Enum(1, {1: Agg({0: Opaque("dur")})}, "Option"),
+         r"^Option::map$": lambda eng, ctx, f, path, args, dty: (Enum(1, {1: Agg({0: z3.BitVec("ts", 64)})}, "Option") if isinstance(args[0], Enum) and args[0].discr == 1 else Enum(0, {}, "Option"))}
+    m.update(models.BASE)
+    doc = doc_table()
+    modes = P.enums["AggregationMode"]
+    b = P.find("State", "get_aggregation_timestamp")
+    specs = []
+    for i, mode in enumerate(modes):
+        eng = sym.Engine(P, models=m)
+        ctx0 = sym.Ctx(eng, 1)
+        ctx0.statics = {"state": Agg({0: Agg({0: Enum(i, {}, "AggregationMode")})})}
+
+        def script():
+            r = yield ("call", b, [sym.Ptr(("static", "state"))])
+            return r
+        leaves = eng.run_script(1, "ts:" + mode, script, ctx0=ctx0)
+        e3.absorb(eng)
+        some = z3.Or(*[z3.And(l.taken(), eng.discr_is(l.ret.discr, 1)) for l in leaves if l.status == "done"])
+        want = doc.get(mode)
+        specs.append(dict(name=f"c10_timestamp_{mode}", desc=f"AggregationMode::{mode} is documented to {'send' if want else 'not send'} a timestamp with counters and gauges; the code does the opposite",
+                          bounds="decision table: every AggregationMode variant against the documented behaviour (doc comments of builder.rs)",
+                          cons=[some != z3.BoolVal(bool(want))], expect_unsat=True))
+    # framing: length prefix exactly for the stream transport
+    fb = P.find("ForwarderConfiguration", "is_length_prefixed")
+    variants = P.enums["RemoteAddr"]
+    for i, v in enumerate(variants):
+        eng = sym.Engine(P, models=dict(models.BASE))
+        ctx0 = sym.Ctx(eng, 1)
+        ctx0.statics = {"cfg": Agg({0: Enum(i, {i: Agg({0: Opaque("addr")})}, "RemoteAddr")})}
+
+        def script2():
+            r = yield ("call", fb, [sym.Ptr(("static", "cfg"))])
+            return r
+        leaves = eng.run_script(1, "lp:" + v, script2, ctx0=ctx0)
+        e3.absorb(eng)
+        yes = z3.Or(*[z3.And(l.taken(), eng.as_bool(l.ret)) for l in leaves if l.status == "done"])
+        specs.append(dict(name=f"c10_framing_{v}", desc=f"payloads for RemoteAddr::{v} are {'not ' if v != 'Unix' else ''}length-prefixed (only the unix stream socket needs framing)",
+                          bounds="decision table over the RemoteAddr variants", cons=[yes != z3.BoolVal(v == "Unix")], expect_unsat=True))
+    from mirsmt import check
+    check.discharge_many(e3.res, specs, 60)
+
+
 SCEN = [("inc_flush", "c10_inc_flush", ["K6"]), ("inc2_flush2", "c10_inc2_flush2", ["K6"]), ("abs2_flush", "c10_abs2_flush", ["K7"]),
         ("gauge_set_flush", "c10_gauge_set_flush", []), ("gauge_inc_flush", "c10_gauge_inc_flush", [])]
 
@@ -142,6 +207,10 @@ def run(tier, seed, t0):
             storage_scenario(e3, kind, nm, known)
         except sym.Unsupported as ex:
             e3.error(nm, "MIR->SMT encoding of dogstatsd storage", ex)
+    try:
+        config_tables(e3)
+    except sym.Unsupported as ex:
+        e3.error("c10_tables", "decision tables of State::get_aggregation_timestamp / is_length_prefixed", ex)
     obs = list(e3.res.obligations)
     obs += kani.run_group("dsd", HARNESSES, tier, hooks=True, stubbing=True)
     finish("C10", tier, seed, obs, t0, ASSUME + ["E3 callee models: " + ", ".join(sorted(e3.models))], sorted(e3.functions) + FUNCS_E1,
